@@ -11,9 +11,10 @@ def demo_path(demo):
     return m.group(1) if m else None
 def confirm(ID, v):
     rd=os.environ.get('ROUND','1')
-    src={'1':f'/tmp/seed_out/{ID}/{v}','2':f'/tmp/seed_out2/{ID}/{v}','3':f'/tmp/seed_out3/{ID}/{v}','4':f'/tmp/seed_out4/{ID}/{v}','5':f'/tmp/seed_out5/{ID}/{v}','6':f'/tmp/seed_out6/{ID}/{v}','7':f'/tmp/seed_out7/{ID}/{v}'}[rd]
-    wt={'1':f'/tmp/seed_{ID}','2':f'/tmp/seed2_{ID}','3':f'/tmp/seed3_{ID}','4':f'/tmp/seed4_{ID}','5':f'/tmp/seed5_{ID}','6':f'/tmp/seed6_{ID}','7':f'/tmp/seed7_{ID}'}[rd]
-    name={'1':{'a':'a','b':'b'},'2':{'a':'c','b':'d'},'3':{'a':'e','b':'f'},'4':{'a':'g','b':'h'},'5':{'a':'i','b':'j'},'6':{'a':'k','b':'l'},'7':{'a':'m','b':'n'}}[rd][v]
+    r=int(rd); sfx='' if r==1 else str(r)
+    src=f'/tmp/seed_out{sfx}/{ID}/{v}'
+    wt=f'/tmp/seed{sfx}_{ID}'
+    name=chr(ord('a')+2*(r-1)+(0 if v=='a' else 1))
     out={}
     assert sh(f'git -C {wt} status --porcelain').stdout.strip()=='' , 'worktree dirty'
     rel=demo_path(f'{src}/demo.rs'); assert rel, 'no place-at comment'
